@@ -518,3 +518,128 @@ Proof. intros mf rf. cbn [ops_ok]. unfold xsub_op_ok. tauto. Qed.
 Print Assumptions pub_proto_law.
 Print Assumptions sub_proto_law.
 Print Assumptions xsub_proto_law.
+
+(* ================================================================== Part 2: after close the protocol owns nothing *)
+From Coq Require Import Permutation.
+From NngV Require Import Ledger.LedgerThms.
+
+(* ------------------------------ PUB ------------------------------ *)
+(* the socket core's close sequence as pub.c sees it: every pipe the state knows gets its
+   pipe_close (the pipe stays in pb_pipes, flagged closed, and keeps the message on its aio_send),
+   the transport send still in flight on it fails (PSendDone p E_CLOSED), then the socket's close *)
+Definition pub_close_script (s : pub) : list pop :=
+  flat_map (fun p => PPipeClose (pp_id p)
+                     :: match pp_tx p with Some _ => [PSendDone (pp_id p) E_CLOSED] | None => [] end)
+           (pb_pipes s)
+  ++ [PSockClose].
+
+Definition pub_closing (o : pop) : Prop :=
+  match o with PPipeClose _ | PSockClose => True | PSendDone _ rv => rv = E_CLOSED | _ => False end.
+(* pipe i has a message on its aio_send *)
+Definition txp (s : pub) (i : pid) : Prop := exists p, In p (pb_pipes s) /\ pp_id p = i /\ pp_tx p <> None.
+
+Lemma pub_closing_ok ops : Forall pub_closing ops -> forall s, ops_ok pub_step pub_op_ok s ops.
+Proof.
+  induction 1 as [|o ops Ho _ IH]; intros s; cbn [ops_ok]; [exact I|]. split; [|apply IH].
+  destruct o; cbn [pub_closing pub_op_ok] in *; try exact I; contradiction.
+Qed.
+Lemma in_upd_pipe id f l p' : In p' (upd_pipe id f l) ->
+  exists p, In p l /\ ((pp_id p <> id /\ p' = p) \/ (pp_id p = id /\ p' = f p)).
+Proof.
+  unfold upd_pipe. intros H. apply in_map_iff in H as (p & E & Hin). exists p. split; [exact Hin|].
+  destruct (N.eqb_spec (pp_id p) id); [right|left]; auto.
+Qed.
+(* a closing step puts no message on any aio_send, and the failing completion takes it off *)
+Lemma pub_closing_step s o i : pub_closing o -> txp (fst (pub_step s o)) i -> txp s i /\ o <> PSendDone i E_CLOSED.
+Proof.
+  intros Hc (p' & Hin & Hid & Htx).
+  destruct o as [k a nb m|k a nb|a rv|p peer|p|p rv|p rv m|k op|k|k| |now]; cbn [pub_closing] in Hc; try contradiction;
+    cbn [pub_step] in Hin.
+  - destruct (find_pipe p (pb_pipes s)); cbn [fst pb_pipes] in Hin.
+    + apply in_upd_pipe in Hin as (q & Hq & [[_ ->]|[_ ->]]); simp_p; (split; [exists q; auto|discriminate]).
+    + split; [exists p'; auto|discriminate].
+  - subst rv. change (negb (E_CLOSED =? 0)%N) with true in Hin.
+    destruct (find_pipe p (pb_pipes s)) eqn:Fd; cbn [fst pb_pipes] in Hin.
+    + apply in_upd_pipe in Hin as (q & Hq & [[Hne ->]|[_ ->]]); simp_p.
+      * split; [exists q; auto|]. intros E. inversion E. congruence.
+      * exfalso. apply Htx. reflexivity.
+    + split; [exists p'; auto|]. intros E. inversion E as [Ep].
+      apply (find_pipe_none _ _ Fd). rewrite Ep, <- Hid. apply in_map, Hin.
+  - cbn [fst] in Hin. split; [exists p'; auto|discriminate].
+Qed.
+Lemma pub_closing_run ops : Forall pub_closing ops -> forall s i,
+  txp (run pub_step s ops) i -> txp s i /\ ~ In (PSendDone i E_CLOSED) ops.
+Proof.
+  induction 1 as [|o ops Ho _ IH]; intros s i H; cbn [run] in H; [split; [exact H|intros []]|].
+  destruct (IH _ _ H) as [H1 H2]. destruct (pub_closing_step s o i Ho H1) as [H3 H4].
+  split; [exact H3|]. intros [E|E]; [apply H4; exact E|exact (H2 E)].
+Qed.
+Lemma ptx_nil l : (forall p, In p l -> pp_tx p = None) -> ptx l = [].
+Proof.
+  induction l as [|p l IH]; intros H; [reflexivity|]. unfold ptx. cbn [flat_map]. fold (ptx l).
+  rewrite (H p) by (left; reflexivity). rewrite IH by (intros q Hq; apply H; right; exact Hq). reflexivity.
+Qed.
+Lemma pub_script_closing s : Forall pub_closing (pub_close_script s).
+Proof.
+  apply Forall_forall. intros o Hin. unfold pub_close_script in Hin. apply in_app_or in Hin as [Hin|[<-|[]]]; [|exact I].
+  apply in_flat_map in Hin as (p & _ & [<-|Hin]); [exact I|].
+  destruct (pp_tx p); [destruct Hin as [<-|[]]; reflexivity|destruct Hin].
+Qed.
+Lemma pub_script_fails s i : txp s i -> In (PSendDone i E_CLOSED) (pub_close_script s).
+Proof.
+  intros (p & Hin & Hid & Htx). unfold pub_close_script. apply in_or_app. left. apply in_flat_map. exists p. split; [exact Hin|].
+  right. destruct (pp_tx p); [left; now rewrite Hid|congruence].
+Qed.
+
+Theorem pub_close_drains : forall s, PubInv s ->
+  ops_ok pub_step pub_op_ok s (pub_close_script s) /\ drained view_pub (run pub_step s (pub_close_script s)).
+Proof.
+  intros s _. split; [apply pub_closing_ok, pub_script_closing|].
+  split; [|split; [reflexivity|apply Permutation_refl]].
+  change (v_tx view_pub (run pub_step s (pub_close_script s))) with (ptx (pb_pipes (run pub_step s (pub_close_script s)))).
+  apply ptx_nil. intros p Hp. destruct (pp_tx p) as [m|] eqn:T; [exfalso|reflexivity].
+  assert (X : txp (run pub_step s (pub_close_script s)) (pp_id p)) by (exists p; rewrite T; repeat split; auto; discriminate).
+  destruct (pub_closing_run _ (pub_script_closing s) s _ X) as [X1 X2]. apply X2, pub_script_fails, X1.
+Qed.
+
+(* ------------------------------ SUB ------------------------------ *)
+(* sub.c's state records no pipe and no transport send; every context other than the socket's own
+   is closed (PCtxClose), then the socket's close, which closes and finishes the master context *)
+Definition sub_close_script (s : sub) : list pop :=
+  flat_map (fun c => match sc_id c with Some k => [PCtxClose k] | None => [] end) (sb_ctxs s) ++ [PSockClose].
+
+Definition sub_closing (o : pop) : Prop := match o with PCtxClose _ | PSockClose => True | _ => False end.
+Lemma sub_closing_ok fixed ops : Forall sub_closing ops -> forall s, ops_ok (sub_step fixed) sub_op_ok s ops.
+Proof.
+  induction 1 as [|o ops Ho _ IH]; intros s; cbn [ops_ok]; [exact I|]. split; [|apply IH].
+  destruct o; cbn [sub_closing sub_op_ok] in *; try exact I; contradiction.
+Qed.
+Lemma sub_script_closing s : Forall sub_closing (sub_close_script s).
+Proof.
+  apply Forall_forall. intros o Hin. unfold sub_close_script in Hin. apply in_app_or in Hin as [Hin|[<-|[]]]; [|exact I].
+  apply in_flat_map in Hin as (c & _ & Hin). destruct (sc_id c); [destruct Hin as [<-|[]]; exact I|destruct Hin].
+Qed.
+
+Theorem sub_close_drains : forall fixed s, SInv s ->
+  ops_ok (sub_step fixed) sub_op_ok s (sub_close_script s) /\
+  drained view_sub (run (sub_step fixed) s (sub_close_script s)).
+Proof.
+  intros fixed s _. split; [apply sub_closing_ok, sub_script_closing|].
+  split; [reflexivity|split; [reflexivity|apply Permutation_refl]].
+Qed.
+
+(* ------------------------------ raw SUB ------------------------------ *)
+(* xsub.c's state records no pipe, no transport send and no context: the socket's close (nni_msgq_close) *)
+Definition xsub_close_script (s : xsub) : list pop := [PSockClose].
+
+Theorem xsub_close_drains : forall mq_fixed rs_fixed s, XsubInv s ->
+  ops_ok (xsub_step mq_fixed rs_fixed) xsub_op_ok s (xsub_close_script s) /\
+  drained view_xsub (run (xsub_step mq_fixed rs_fixed) s (xsub_close_script s)).
+Proof.
+  intros mf rf s _. split; [cbn [xsub_close_script ops_ok]; unfold xsub_op_ok; tauto|].
+  split; [reflexivity|split; [reflexivity|apply Permutation_refl]].
+Qed.
+
+Print Assumptions pub_close_drains.
+Print Assumptions sub_close_drains.
+Print Assumptions xsub_close_drains.
